@@ -295,9 +295,9 @@ async def _run_stream(case, out):
             if effective:
                 out.check(len(raw) <= m, "blob-larger-than-max:scaled",
                           "MAX_BLOB_SIZE patched to %d, blob %d has %d bytes" % (m, i, len(raw)))
-            if i < len(drawn):
-                out.check(b.iv == drawn[i].hex(), "iv-not-from-generator",
-                          "blob %d iv %r, generator gave %s" % (i, b.iv, drawn[i].hex()))
+            if i < len(ivs):
+                out.check(b.iv == ivs[i].hex(), "iv-not-from-generator",
+                          "blob %d iv %r, the generator's element %d is %s" % (i, b.iv, i, ivs[i].hex()))
             try:
                 iv = bytes.fromhex(b.iv)
                 pt = aes_cbc_decrypt(key, iv, raw)
